@@ -7,6 +7,7 @@ ROOT = os.path.dirname(os.path.dirname(os.path.abspath(__file__)))
 FIXED = [
  ("fix: a valid max-age (including max-age=0)", ["C01"], "max-age=0 fell through to Expires / the Last-Modified heuristic and the response was served as fresh (grid point max-age=0 + Last-Modified)"),
  ("fix: saturate Age and delta-seconds", ["C01", "C12"], "Age / delta-seconds beyond int64 wrapped to a negative duration (Age: 100000000000000000000 served as HIT; max-age >= 9223372037 negative lifetime); a negative Age reduced the response delay"),
+ ("fix: saturate the sums in the age computation", ["C01", "C11"], "clamped Age (146 y) + resident time > 146 y overflowed to a negative age: stale response served as HIT with Age: 0 (fuzz history with a 60-year and a 120-year step; grid point Age=1e20 at elapsed 150 y)"),
  ("fix: do not dereference the nil response", ["C10", "C13"], "transport error while validating a stored response panicked in HandleValidationResponse (nil *http.Response)"),
  ("fix: ignore null elements of a corrupted variant index", ["C10"], "a stored index value of [null] panicked the Vary matcher"),
  ("fix: do not panic on request URLs without a scheme", ["C10"], "http.NewRequest(GET, /relative) panicked in makeURLKey"),
